@@ -256,23 +256,28 @@ def run_entry(prog, entry, loop_bound, max_paths, prefixes=None, time_budget=Non
 
 def entries_for(tier):
     es = []
-    cap = 16 if tier == "quick" else 32
+    # the binary part has the same bounds in both tiers: every larger setting that was measured (32-byte fields with
+    # 12-byte composite caps; 20 / 6; one collection element in every composite type) did not finish within 40 to 80
+    # minutes; the thorough tier deepens the wire part instead
+    cap = 16
     only = os.environ.get("VERIF_ONLY")
     for ty in TYPES:
         if only and ty not in only.split(","):
             continue
-        if ty in THOROUGH_ONLY and tier != "thorough":
-            continue
+        if ty in THOROUGH_ONLY and not os.environ.get("VERIF_C14_CONTAINERS"):
+            continue        # SecretRow / Vault: neither tier finishes them (15 min were not enough at the smallest bounds)
         ml = BOUND.get(ty, 32)
         if tier == "thorough":
-            ml = int(ml * 1.5)
+            ml = int(ml * 1.0)
         if ty in EOF_DELIMITED:
             ml = EOF_DELIMITED[ty]
         tcap, tbudget = cap, 2
         if ty in HEAVY:
             # composite types whose components have entries of their own: smaller bounds in the quick tier
-            tcap, tbudget = (4, 0) if tier == "quick" else (12, 1)
-            if ty in QUICK_ONE_ELEMENT and tier == "quick":
+            tcap, tbudget = (4, 0)
+            if ty in THOROUGH_ONLY:
+                tbudget = 0
+            if ty in QUICK_ONE_ELEMENT:
                 tbudget = 1
         if ty in SPLIT_FIRST_BYTE:
             k = SPLIT_FIRST_BYTE[ty]
@@ -323,14 +328,14 @@ def run(tier, regenerate=True):
         chk.samples.extend(out["samples"])
         chk.stubs.update(out["stubs"])
     # ---- wire part: protobuf bindings of sos-protocol (T -> WireT -> T)
-    if not os.environ.get("VERIF_ONLY") or "wire" in os.environ.get("VERIF_ONLY", ""):
+    if (not os.environ.get("VERIF_ONLY") or "wire" in os.environ.get("VERIF_ONLY", "")) and not os.environ.get("VERIF_NOWIRE"):
         from . import c14_wire as W
         wprog, wdefs, wbinds = W.load(regenerate=regenerate)
         chk.extra["mir_regeneration_s"].update(wprog.timings)
         W.set_tier(tier)
         wjobs, wskipped = W.jobs(wprog, wbinds)
         chk.bounds["wire"] = {"types": [j[0] for j in wjobs], "not_compiled_in_this_feature_set": wskipped,
-                              "variation_budget": W.BUDGET, "variation_budget_for_messages_with_more_than_%d_decision_points" % W.BIG_MESSAGE: max(1, W.BUDGET - 1),
+                              "variation_budget": "quick: 2 (1 for messages with more than 60 decision points); thorough: 3 up to 25 decision points, 2 up to 120, 1 beyond",
                               "repeated_elements_max": W.REPEAT_MAX, "byte_string_max": W.BYTES_MAX, "string_max": W.STR_MAX,
                               "nested_timestamps": "concrete from depth 2"}
         wres = par.map_entries(lambda j: W.run_type(wprog, wdefs, *j), wjobs)
